@@ -609,7 +609,7 @@ package rosmar
 //@   requires !opts.preserveXattr && !opts.insertXattr
 //@   loop 1 invariant [C07:wwx.validate-loop] true
 //@   loop 1001 invariant [C07:wwx.preserve-loop] true
-//@   loop 1002 invariant [C07:wwx.apply-loop] true
+//@   loop 1002 invariant [C07:wwx.apply-loop] forall k: Str :: !haskey(xattrsPayload, k) ==> xattrs[k] == atentry(xattrs[k])
 //@   loop 1002 body [C07:wwx.one-xattr-per-step]  iter("mapupdate") + iter("mapdelete") <= 1
 //@   loop 1002 body [C07:wwx.macro-sees-new-cas]  iter("call:event.expandXattrMacros") == 1 ==> callrecv("event.expandXattrMacros").cas == newCas && callrecv("event.expandXattrMacros").key == key
 //@   loop 1002 body [C07:wwx.macro-sees-stored-body] iter("call:event.expandXattrMacros") == 1 && val != nil ==> (pnil(*val) ==> isnull(callrecv("event.expandXattrMacros").value)) && (plainJSON(*val) ==> callrecv("event.expandXattrMacros").value == val.marshaled)
@@ -635,6 +635,7 @@ package rosmar
 //@   ensures [C01,C05,C07:wwx.body-written]  err == nil && val != nil && plainJSON(*val) ==> r2.value == val.marshaled && r2.isJSON == 1 && r2.tombstone == 0
 //@   ensures [C01,C07:wwx.body-kept]      err == nil && val == nil ==> r2.value == (if r.present then r.value else NULL) && r2.isJSON == (if r.present then r.isJSON else 0)
 //@   ensures [C07,C14:wwx.expiry]         err == nil ==> r2.exp == (if exp != nil then absexp(*exp, now) else (if r.present then r.exp else 0))
+//@   ensures [C05,C07:wwx.other-xattrs] err == nil ==> forall k: Str :: !haskey(xattrsPayload, k) ==> xget(r2.xattrs, k) == (if resurrect || !r.present then NOX else (if val != nil && pnil(*val) && !issys(k) then NOX else xget(r.xattrs, k)))
 //@   ensures [C05:wwx.requires-existing]  opts.requireExistingDoc && !r.present ==> err != nil
 //@   ensures [C20:wwx.unlocked]           any: nolocks()
 //@ fn removeUserXattrs
